@@ -2070,9 +2070,12 @@ size_t rtosc_scan_arg_val(const char* src,
             || !rtosc_arg_vals_cmp_single(llhsarg, &lhsarg, NULL));
 
 
+        // like the syntax checker: only numeric types can count
+        bool numeric_range = strchr(numeric_range_types(), lhsarg.type);
+
         bool has_delta = true;
         int32_t num;
-        if(infinite_range && llhsarg_is_useless)
+        if(infinite_range && (llhsarg_is_useless || !numeric_range))
         {
             has_delta = false;
             num = 0; // suppress compiler warnings
